@@ -590,6 +590,12 @@ func (x *Exec) autoCandidates(fr *frame, li *loopInfo, pre, st *State, entryAllo
 		}
 		if _, isSl := pv.T.Underlying().(*types.Slice); isSl && len(pv.L) == 4 {
 			name := k.a.Comment
+			if x.root != nil && x.root.entrySt != nil {
+				ea := x.root.entrySt.alloc
+				add("fresh-or-nil("+name+")", func(s *State) Term {
+					return or(eq(s.cells[k].SRef(), intLit(0)), mk(SBool, ">", s.cells[k].SRef(), ea))
+				})
+			}
 			add("len("+name+") <= entry", func(s *State) Term { return c.le(s.cells[k].SLen(), pv.SLen()) })
 			add("ref("+name+") == entry", func(s *State) Term { return eq(s.cells[k].SRef(), pv.SRef()) })
 			add("end("+name+") == entry", func(s *State) Term {
